@@ -106,6 +106,11 @@ def make_pool(seed):
         A = P['lap'].assemble(b)
         f = P['load'].assemble(b)
         P[nm] = (A, f)
+    # RESULTS kept by the caller: bases built earlier with the stateful element objects; later work with the same element
+    # objects must leave their arrays alone
+    P['bL1'] = fem.CellBasis(P['mL'], P['eLpp'], quadrature=(np.array([[.125, .5, .875]]), np.array([.25, .5, .25])))
+    P['bQ1'] = fem.CellBasis(P['mQ'], P['eQP'], intorder=4)
+    P['bM1'] = fem.CellBasis(P['mA'], P['eMor'])
     # systems returned by the boundary-condition helpers, kept and solved repeatedly
     from skfem.utils import condense, mpc
     import scipy.sparse as sp
@@ -144,6 +149,8 @@ def arrays_of_pool(P):
     for k in ('cond1', 'mpc1'):
         A, f, x = P[k][:3]
         out += [A.data, A.indices, A.indptr, f, x]
+    for k in ('bL1', 'bQ1', 'bM1'):
+        out += _basis_obs(P[k])
     return out
 
 
@@ -262,6 +269,10 @@ def operations():
     op('CellBasis(mQ,eQP,quadXq1)', {'mQ', 'eQP'})(lambda P: _basis_obs(fem.CellBasis(P['mQ'], P['eQP'], quadrature=(Xq1, Wq))))
     op('CellBasis(mQ,eQP,quadXq1+2^-27)', {'mQ', 'eQP'})(
         lambda P: _basis_obs(fem.CellBasis(P['mQ'], P['eQP'], quadrature=(Xq1 + 2.0 ** -27, Wq))))
+    # bases kept from earlier: observing them again, assembling with them
+    for bk, ek in (('bL1', 'eLpp'), ('bQ1', 'eQP'), ('bM1', 'eMor')):
+        op(f'observe {bk}', {bk, ek})(lambda P, bk=bk: _basis_obs(P[bk]))
+        op(f'mass({bk})', {bk, ek, 'lap'})(lambda P, bk=bk: [fem.BilinearForm(lambda u, v, w: u * v).assemble(P[bk]).toarray()])
     # ---- probes / interpolator at two point sets of equal size --------------------------------------------------
     x1 = np.array([[.0625, .5, 1.75]])
     x2 = np.array([[.125, .75, 2.25]])
